@@ -23,11 +23,11 @@ CHECKS['C13'] = dict(cat='proof', ref='DESIGN.md section 3 C13',
     note='T1/T2: bit-identity decided as operation-sequence identity; repeated Brownian queries identical (C05); fadd(a,dt)>a assumed',
     tech=TECH.format(engine='z3 with uninterpreted float arithmetic + relational (2-safety) loop-body obligation'))
 CHECKS['C14'] = dict(cat='proof', ref='DESIGN.md section 3 C14',
-    text='Hoare-style proof of the real adaptive arm of integrate(): invariant over a ghost accepted trajectory (each accepted step is the two-half-step map, contiguous, strictly advancing, inside [ts[0], ts[-1]], ends at ts[-1]); per-trial obligations (accept iff err<=1 or step<=dt_min, rejected => state unchanged and strictly smaller step >= dt_min, trial length >= dt_min or clipped, three Brownian queries); update_step_size and compute_error proved against their contracts.',
+    text='Hoare-style proof of the real adaptive arm of integrate(): invariant over a ghost accepted trajectory (each accepted step is the two-half-step map, contiguous, strictly advancing, inside [ts[0], ts[-1]], ends at ts[-1]); per-trial obligations (accept iff err<=1 or step<=dt_min, rejected => state unchanged and strictly smaller step >= dt_min, trial length >= dt_min or clipped, three Brownian queries, the error estimate is compute_error(full step, two half steps, self.rtol, self.atol)); compute_error and the property-level clauses of update_step_size proved against their contracts; helper clauses of the controller contract are only the hypothesis of the modular proof, and the same loop obligations are also discharged with the real controller body inlined.',
     note='T1; pow(x,a) uninterpreted with monotonicity axioms (T5); termination reduced to proved progress facts; "tighter tolerances reduce true error" not decided',
     tech=TECH.format(engine='z3 (nonlinear reals, quantified ghost arrays)'))
 CHECKS['C03'] = dict(cat='proof', ref='DESIGN.md section 3 C03',
-    text='Heap-level Hoare proofs of the real _split_exact/_split/_loc_inner/_loc/__call__ (z3, quantified heap invariants) with a ghost Brownian path carried as a data-structure invariant; split identities proved from the bridge formulas extracted from the real source; __call__ postcondition W = Wc(tb)-Wc(ta), U = V(tb)-V(ta)-(tb-ta)Wc(ta) for every well-formed tree, cache state and mode; Chen relation and the reversed-path contract as z3 lemmas.',
+    text='Heap-level Hoare proofs of the real _split_exact/_split/_loc_inner/_loc/__call__ (z3, quantified heap invariants) with a ghost Brownian path carried as a data-structure invariant; split identities proved from the bridge formulas extracted from the real source; __call__ postcondition W = Wc(tb)-Wc(ta), U = V(tb)-V(ta)-(tb-ta)Wc(ta) for every well-formed tree, cache state and mode; Chen relation and the reversed-path contract (ReverseBrownian.__init__/__call__, double reversal) as z3 lemmas; the multi-node aggregation loop of __call__ executed on explicit tensors against Chen for W, U and the Levy area A per batch element.',
     note='T1,T2,T5 (round axioms),T6; generic element (W,H,U element-wise); partial correctness (termination in C07); in-range queries at resolved times; Levy-area merge is dimension-bounded',
     tech=TECH.format(engine='z3 over a symbolic heap (arrays + guarded quantifiers), case split at seams, hypothesis slicing with explicit instances, finite-scope refuter'))
 CHECKS['C10'] = dict(cat='proof', ref='DESIGN.md section 3 C10',
@@ -39,17 +39,17 @@ CHECKS['C11'] = dict(cat='proof', ref='DESIGN.md section 3 C11',
     note='T1,T3,T6,T7; dimension-bounded (B,d,m) in {(1,1,1),(2,2,2)}; known finding: derivative of the Milstein-adjoint correction under grad mode',
     tech=TECH.format(engine='exact polynomial normal form with derivative atoms (Taylor-mode autograd model)'))
 CHECKS['C15'] = dict(cat='proof', ref='DESIGN.md section 3 C15',
-    text='The real ReversibleHeun.step executed on abstract tensors (module over scalars, bilinear prod, uninterpreted f, g) from an arbitrary consistent carried state, then again on the negated time-reversed SDE through the real ReverseBrownian: returns exactly the original (y0, -f0, -g0, z0). All batch/state/noise sizes, all four noise types.',
+    text='The real ReversibleHeun.step executed on abstract tensors (module over scalars, bilinear prod, uninterpreted f, g) from an arbitrary consistent carried state, then again on the negated time-reversed SDE through the real ReverseBrownian: returns exactly the original (y0, -f0, -g0, z0). All batch/state/noise sizes, all four noise types. ReverseBrownian contract incl. construction and reversal of an already reversed motion.',
     note='T1 (rounding / stability), T6, T7',
     tech=TECH.format(engine='exact polynomial normal form over tensor atoms (A domain)'))
 HEAP = TECH.format(engine='z3 over a symbolic heap (arrays + guarded quantifiers), case split, hypothesis slicing with explicit instances, finite-scope refuter with validated rounding models')
 CHECKS['C04'] = dict(cat='proof', ref='DESIGN.md section 3 C04',
-    text='The law is decided by coefficients: linearity and the ten single-split covariance identities proved (z3, all split ratios) from the bridge formulas extracted from the real source; Davie/Foster: antisymmetry, conditional mean and prescribed variance on explicit tensors; seeds: (spawn_key, depth) injective on nodes, noise drawn from the parent seeds at the full sample shape; constructor: top-level scaling sqrt(t1-t0), sqrt((t1-t0)/12), user W/H stored unchanged.',
+    text='The law is decided by coefficients: linearity and the ten single-split covariance identities proved (z3, all split ratios) from the bridge formulas extracted from the real source; Davie/Foster: antisymmetry, conditional mean and prescribed variance on explicit tensors; seeds: (spawn_key, depth) injective on nodes (relational obligation on the real _set_spawn_key_and_depth), noise drawn from the parent seeds at the full sample shape; constructor: top-level scaling sqrt(t1-t0), sqrt((t1-t0)/12), user W/H stored unchanged; Levy areas of multi-node queries combine by Chen per batch element (aggregation loop on explicit tensors).',
     note='T1,T2,T4 (Gaussianity/independence of seeded streams),T5,T6; induction over histories is meta-level; Levy-area job dimension-bounded (m=2)',
     tech=HEAP)
 CHECKS['C05'] = dict(cat='proof', ref='DESIGN.md section 3 C05',
-    text='Stability (every tree mutator only refines leaves: refines frame proved for _split_exact/_split/_loc_inner/_loc for all heaps), value determinism (a node value depends only on parent W,H, parent geometry and parent-seeded noise; the cache stores exactly the returned value), cache transparency (_LRUDict.__setitem__ may forget, never alters, bounded; _EmptyDict), wrappers forward to the same object without writing to it (in-place guard).',
-    note='T1,T2,T6; bit-identity decided as operation-sequence identity; decomposition determinism after refinement NOT decided (stated in evidence)',
+    text='Stability (every tree mutator only refines leaves: refines frame proved for _split_exact/_split/_loc_inner/_loc for all heaps), value determinism (a node value depends only on parent W,H, parent geometry and parent-seeded noise; the cache stores exactly the returned value), cache transparency (_LRUDict.__setitem__ may forget, never alters, bounded; _EmptyDict), wrappers forward to the same object without writing to it (in-place guard); value-level history independence over the reals by the ghost-path chain (every call returns Wc(round tb)-Wc(round ta) for a ghost path that no call changes where it is fixed).',
+    note='T1,T2,T6; bit-identity decided as operation-sequence identity; identity of the floating-point decomposition after refinement is served by time-budgeted bounded stand-ins only (stated in evidence)',
     tech=HEAP)
 CHECKS['C06'] = dict(cat='proof', ref='DESIGN.md section 3 C06',
     text='Determinism (no nondeterministic construct except randint under entropy=None; constructor derives all seeds from SeedSequence(entropy)), dyadic split points depend only on the node (postcondition of the real _split), BrownianTree/BrownianPath constructors, wrappers never update borrowed tensors in place.',
@@ -62,27 +62,27 @@ CHECKS['C07'] = dict(cat='proof', ref='DESIGN.md section 3 C07',
 XDOM = TECH.format(engine='exact polynomial normal form on explicit small tensors (X domain), uninterpreted row-wise user functions with derivative atoms')
 CHECKS['C17'] = dict(cat='proof', ref='DESIGN.md section 3 C17',
     text='For every solver accepting general noise the real step() is executed under the special declaration (diagonal/scalar/additive) and under the general-noise embedding of the same SDE with the same Brownian increment: identical y1 (and carried state for reversible Heun), generic in f, g (time-dependent), dt, dW, A.',
-    note='T1,T3,T6,T7; dimension-bounded B=2,d=2,m<=2 (stated in evidence)', tech=XDOM)
+    note='T1,T3,T6,T7; dimension-bounded B=2,d=2,m<=3 (stated in evidence)', tech=XDOM)
 CHECKS['C18'] = dict(cat='proof', ref='DESIGN.md section 3 C18',
-    text='parse_return differencing/shapes; SDELogqp augmentation equals its definition and is stateless; per solver: first d components of the augmented step equal the un-augmented step, L increases by dt times a non-negative combination of the integrand at the stages with weights summing to one, exact case f-h=gc gives |c|^2/2*dt; pinv exact case in z3; stable_division body.',
-    note='T1,T5 (pinv g = I),T6,T7; dimension-bounded; stable_division used inside its guard', tech=XDOM + ' + z3')
+    text='parse_return differencing/shapes; SDELogqp augmentation equals its definition and is stateless; per solver: first d components of the augmented step equal the un-augmented step, L increases by dt times a non-negative combination of the integrand at the stages with weights summing to one, exact case f-h=gc gives |c|^2/2*dt; pinv exact case in z3; stable_division body and a guard obligation at each of its call sites.',
+    note='T1,T5 (pinv g = I),T6,T7; dimension-bounded; assumption: entries of a diagonal diffusion exceed 1e-7 in modulus (guard of stable_division)', tech=XDOM + ' + z3')
 CHECKS['C20'] = dict(cat='proof', ref='DESIGN.md section 3 C20',
-    text='Row non-interference by self-composition of every real solver step (B=2): changing row 1 of y0, dW, U, A leaves row 0 identical; permutation equivariance; SDELogqp; Brownian noise drawn at the full sample shape with per-node seeds.',
-    note='T1,T3,T6,T7 (row-wise user functions are the hypothesis); dimension-bounded B=2,d=2,m<=2; adaptive excluded by the property', tech=XDOM)
+    text='Row non-interference by self-composition of every real solver step (B=2): changing row 1 of y0, dW, U, A leaves row 0 identical and vice versa (additive diffusions may differ per row); permutation equivariance for row-alike user functions; SDELogqp; Brownian noise drawn at the full sample shape with per-node seeds; Levy-area cross terms of multi-node queries formed per batch element.',
+    note='T1,T3,T6,T7 (row-wise user functions are the hypothesis); dimension-bounded B=2,d=2,m<=3; adaptive excluded by the property', tech=XDOM)
 CHECKS['C08'] = dict(cat='proof', ref='DESIGN.md section 3 C08',
     text='Differential obligation between the faithful autograd model (detach / no_grad / create_graph=False cut dependence) and ideal differentiation: for every real solver step (all noise types, grad-free Milstein, y0 requiring grad or not) the first-order dependence of y1 and of the carried state on y0 and on the parameters is identical; bounded stand-ins run the real integrate (fixed and adaptive with scripted accept/reject).',
     note='T1,T3 (autograd axiomatised),T6,T7; dimension-bounded B=1,d=2,m<=2; integrate-level checks bounded and not counted as proved; FD agreement itself is T3',
     tech=XDOM + ' with Taylor-mode autograd model')
 CHECKS['C16'] = dict(cat='proof', ref='DESIGN.md section 3 C16',
-    text='Every supported combination of {f, g, f_and_g, g_prod, f_and_g_prod} and renamed methods, wrapped by the real ForwardSDE / RenameMethodsSDE, gives the identical step result for every solver when the documented fall-back rules can derive what the solver needs, and an explicit RuntimeError otherwise; derived operators (g_prod, g dg v for diagonal/default/additive, both Levy-area Jacobian implementations) equal their definitions obtained by formal differentiation.',
-    note='T1,T3,T6,T7; dimension-bounded B=2,d=2,m=2', tech=XDOM)
+    text='Every supported combination of {f, g, f_and_g, g_prod, f_and_g_prod} and renamed methods (contract of RenameMethodsSDE.__init__ over pairs/triples of slots and all permutations of the canonical names), wrapped by the real ForwardSDE / RenameMethodsSDE, gives the identical step result for every solver when the documented fall-back rules can derive what the solver needs, and an explicit RuntimeError otherwise; derived operators (g_prod, g dg v for diagonal/default/additive, both Levy-area Jacobian implementations) equal their definitions obtained by formal differentiation.',
+    note='T1,T3,T6,T7; dimension-bounded B=2,d=2,m<=3', tech=XDOM)
 CHECKS['C19'] = dict(cat='proof', ref='DESIGN.md section 3 C19',
-    text='Exhaustive over the finite product sde_type x noise_type x method (incl. None) x Levy area of the supplied Brownian motion (incl. bm=None) x adaptive x logqp (1600 cells): the real check_contract -> methods.select -> solver constructors are executed; ValueError before integration iff the cell is outside the documented table; default methods and default Brownian motion; 27 malformed-argument classes; adjoint side: for every (sde_type, noise, adjoint_method) the adjoint solver integrates iff admissible, else an explicit error at construction / initial state / first step.',
+    text='Exhaustive over the finite product sde_type x noise_type x method (incl. None) x Levy area of the supplied Brownian motion (incl. bm=None) x adaptive x logqp (1600 cells, for each of the two entry points): the real sdeint and the real sdeint_adjoint are executed up to the intercepted call of integrate; ValueError before integration iff the cell is outside the documented table; default methods and default Brownian motion; 30+ malformed-argument classes on both entry points; an explicit adjoint_method is the one used; adjoint side: for every (sde_type, noise, adjoint_method) the adjoint solver integrates iff admissible, else an explicit error at construction / initial state / first step.',
     note='T6; the documented table (DOCUMENTATION.md + settings.py) is the specification; shapes are concrete small sizes (the code only compares sizes)',
     tech='contract-based deductive verification: pyvc execution of the real front-end code, exhaustive enumeration of the finite configuration space against a specification table')
 CHECKS['C09'] = dict(cat='other', ref='DESIGN.md section 3 C09',
-    text='Bounded symbolic stand-ins plus a trusted theorem: (1) the real sdeint and the real sdeint_adjoint (top-level functions, check_contract, constructors) return identical values on generic f, g, y0, Brownian path; (2) the real backward pass equals the specification (reverse solve per output interval with the time-reversed same Brownian motion, jumps grad_ys[i-1], state reset to ys[i-1]) evaluated with the real AdjointSDE and adjoint solver; gradient routing; (3) reversible-Heun pair end-to-end against backprop. Convergence as dt->0 is NOT proved (Li et al. 2020 trusted).',
-    note='no obligation is counted as proved: every check is a bounded instance (3 output times, 2 steps per interval, B=d=m=1), generic in all symbolic inputs; T1,T3,T5,T6,T7; vector fields are C11',
+    text='Bounded symbolic stand-ins plus a trusted theorem: (1) the real sdeint and the real sdeint_adjoint (top-level functions, check_contract, constructors) return identical values on generic f, g, y0, Brownian path; (2) the real backward pass equals the specification (reverse solve per output interval with the time-reversed same Brownian motion, jumps grad_ys[i-1], state reset to ys[i-1]) evaluated with the real AdjointSDE and adjoint solver; gradient routing (exactly the parameters asked for are handed to the adjoint; no autograd path to parameters not asked for - one known finding for reversible_heun); (3) reversible-Heun pair end-to-end against backprop; (4) the value clauses of the AdjointSDE contract (C11) that the specification relies on are discharged here too. Convergence as dt->0 is NOT proved (Li et al. 2020 trusted).',
+    note='the top-level checks are bounded instances (3 output times, 2 steps per interval, B=d=m=1), generic in all symbolic inputs, and are not counted as proved; the AdjointSDE value clauses are dimension-bounded proof obligations; T1,T3,T5,T6,T7',
     tech='contract-based deductive verification family: bounded symbolic execution of the real top-level code against a specification built from the contracts of C11/C12 (bounded stand-in), exact polynomial normal form')
 REASONS = {}
 checks = []
